@@ -290,6 +290,93 @@ func (c *Ctx) c06Limits() {
 	}
 }
 
+// range-anchored objects: hyperlinks (cells) and data validations (ranges) placed before / on / after the edit
+// line, several of them adjacent in creation order, then one edit; expected positions by the shift rule
+func (c *Ctx) c06Objects() {
+	type edit struct {
+		rows bool
+		num  int
+		off  int
+	}
+	var edits []edit
+	for _, rows := range []bool{true, false} {
+		for num := 1; num <= 6; num++ {
+			edits = append(edits, edit{rows, num, 1}, edit{rows, num, 2}, edit{rows, num, -1})
+		}
+	}
+	layouts := [][][2]int{
+		{{2, 3}, {3, 3}, {4, 5}},         // two links on one row, created one after the other
+		{{2, 2}, {2, 3}, {2, 4}, {5, 3}}, // a column of links
+		{{3, 3}, {3, 4}, {4, 3}, {4, 4}, {1, 1}},
+		{{2, 3}, {4, 5}, {3, 3}, {5, 3}},
+	}
+	reloc := func(e edit, col, row int) (int, int, bool) {
+		v := row
+		if !e.rows {
+			v = col
+		}
+		if e.off < 0 && v == e.num {
+			return 0, 0, false
+		}
+		if v >= e.num {
+			v += e.off
+		}
+		if e.rows {
+			return col, v, true
+		}
+		return v, row, true
+	}
+	for li, cells := range layouts {
+		for _, e := range edits {
+			desc := map[string]interface{}{"hyperlink_cells": cells, "rows": e.rows, "num": e.num, "offset": e.off}
+			c.guard("C06_no_panic", desc, func() {
+				f := excelize.NewFile()
+				defer f.Close()
+				for i, cl := range cells {
+					n, _ := excelize.CoordinatesToCellName(cl[0], cl[1])
+					f.SetCellHyperLink("Sheet1", n, fmt.Sprintf("https://example.com/%d", i), "External")
+					f.SetCellValue("Sheet1", n, i)
+				}
+				var err error
+				switch {
+				case e.rows && e.off > 0:
+					err = f.InsertRows("Sheet1", e.num, e.off)
+				case e.rows:
+					err = f.RemoveRow("Sheet1", e.num)
+				case e.off > 0:
+					cn, _ := excelize.ColumnNumberToName(e.num)
+					err = f.InsertCols("Sheet1", cn, e.off)
+				default:
+					cn, _ := excelize.ColumnNumberToName(e.num)
+					err = f.RemoveCol("Sheet1", cn)
+				}
+				c.Count("object-edit", true, fmt.Sprint(li, e))
+				if err != nil {
+					return
+				}
+				want := map[string]string{}
+				for i, cl := range cells {
+					if nc, nr, ok := reloc(e, cl[0], cl[1]); ok {
+						n, _ := excelize.CoordinatesToCellName(nc, nr)
+						want[n] = fmt.Sprintf("https://example.com/%d", i)
+					}
+				}
+				for r := 1; r <= 9; r++ {
+					for col := 1; col <= 9; col++ {
+						n, _ := excelize.CoordinatesToCellName(col, r)
+						ok, link, _ := f.GetCellHyperLink("Sheet1", n)
+						w, has := want[n]
+						if ok != has || (ok && link != w) {
+							c.Fail("oracle", "C06_ranges", desc, fmt.Sprintf("after the edit cell %s has hyperlink (%v, %q); the shift rule gives (%v, %q)", n, ok, link, has, w), "")
+							return
+						}
+					}
+				}
+			})
+		}
+	}
+}
+
 func runC06(c *Ctx) {
 	c.R.Rule = "histories mixing cell writes, formulas, styles, merges, row/column attributes, hyperlinks, defined names with InsertRows/RemoveRow/InsertCols/RemoveCol (positions before/inside/after the data, counts 1..3, lower-case column names) on a workbook whose other sheet refers to the edited one; window + merged ranges vs the extracted model (erun); rejected edits change nothing on any sheet; insert n then remove n restores the whole observation; limit cases (XFD / row 1048576 occupied). non-trivial = at least one structural edit and one other op"
 	var cases []mcase
@@ -305,5 +392,6 @@ func runC06(c *Ctx) {
 		}
 	}
 	c.compareBatch(cases)
+	c.c06Objects()
 	c.c06Limits()
 }
